@@ -297,6 +297,83 @@ def rule_g2(ctx, F):
     text_gate(ctx, "G2", fn, sets, [("a state is split off only when the predicate says it conflicts", [(("should_split",), True), (("call_mut",), True), (("FnMut",), True)])], accept_desc="marking a state as split")
 
 
+def rule_b1(ctx, F):
+    """B1: bit-set discipline.  A single-bit mask `1 << (X % 64)` selects bit X only in word X / 64 of
+    a multi-word bit set: wherever such a mask is and-ed / or-ed with a word, that word is indexed by
+    `X / 64` or the operation is guarded by `X / 64 == <word index>`.  (The conflict and coincidence
+    bit sets decide which parse states may be merged and which tokens are keywords.)"""
+    from rsrules import deep_text, TextGate
+    n = 0
+    for fn in F.fn_list:
+        if is_test_fn(fn):
+            continue
+        for pt, e in fn.points():
+            for x in own_walk(e):
+                if not (x.get("k") == "assign" and strip(x["r"]).get("k") == "bin" and strip(x["r"]).get("op") == "<<"):
+                    continue
+                sh = strip(x["r"])
+                l = strip(sh["l"])
+                rt = deep_text(fn, sh["r"], user=False)
+                if not (l.get("k") == "int" and l.get("v") == 1 and rt.endswith(" % 64)") and rt.startswith("(")):
+                    continue
+                if strip(x["l"]).get("k") != "ref":
+                    continue
+                X = rt[1:-len(" % 64)")]
+                derived = {strip(x["l"])["id"]}
+                grew = True
+                minus_one = False
+                while grew:
+                    grew = False
+                    for pt2, e2 in fn.points():
+                        for y in own_walk(e2):
+                            if y.get("k") == "assign" and strip(y["l"]).get("k") == "ref" and strip(y["l"])["id"] not in derived:
+                                r = strip(y["r"])
+                                while r.get("k") in ("un", "cast") or (r.get("k") == "mem" and r.get("f") in ("0",)):
+                                    r = strip(r.get("e") or r.get("b"))
+                                if r.get("k") == "ref" and r.get("id") in derived:
+                                    derived.add(strip(y["l"])["id"])
+                                    grew = True
+                                elif r.get("k") == "bin" and r.get("op") == "-" and strip(r["l"]).get("k") == "ref" and strip(r["l"]).get("id") in derived:
+                                    minus_one = True      # `(1 << k) - 1`: a low-bits mask, another idiom
+                if minus_one:
+                    continue
+                uses = []
+                for pt2, e2 in fn.points():
+                    for y in own_walk(e2):
+                        if y.get("k") == "bin" and y.get("op") in ("&", "|"):
+                            for a, b in (("l", "r"), ("r", "l")):
+                                o = strip(y[a])
+                                if o.get("k") == "ref" and o.get("id") in derived:
+                                    uses.append((pt2, y[b]))
+                n += 1
+                seen_keys = getattr(ctx, "_b1_keys", None)
+                if seen_keys is None:
+                    seen_keys = ctx._b1_keys = {}
+                key = "%s:%s:bit-%s" % (fn.name.split("::")[-1] if "closure" not in fn.name else "::".join(fn.name.split("::")[-2:]), fn.file.split("/")[-1], X[-40:])
+                seen_keys[key] = seen_keys.get(key, 0) + 1
+                if seen_keys[key] > 1:
+                    key += "#%d" % seen_keys[key]
+                if not uses:
+                    ctx.bad("B1", key + ":unused", "single-bit mask for `%s` at %s is never combined with a word" % (X, fn.loc(pt)))
+                    continue
+                bad = None
+                for pt2, other in uses:
+                    ot = deep_text(fn, other, user=False)
+                    if ("(%s / 64)" % X) in ot:
+                        continue
+                    srch = Search(fn, TextGate(fn, [pt2], [(("/ 64", "=="), True)]), budget=500000)
+                    if srch.run(0) is None:
+                        continue
+                    bad = (pt2, ot)
+                    break
+                if bad is None:
+                    ctx.ok("B1", key, "the mask for bit `%s` meets only word `%s / 64` (%d use(s))" % (X, X, len(uses)), sample={"site": fn.loc(pt)} if n <= 3 else None)
+                else:
+                    ctx.bad("B1", key, "%s: the single-bit mask `1 << (%s %% 64)` is combined at %s with a word (`%s`) that is not word `%s / 64` and without an `… / 64 == w` guard: "
+                            "bit %s + 64k of the set is affected as well" % (fn.name, X, fn.loc(bad[0]), bad[1][:60], X, X), {"site": fn.loc(bad[0])})
+    ctx.floor("single-bit masks into multi-word bit sets", n, 12)
+
+
 def run(ctx):
     ctx.config = "rust"
     F = ctx.extract.rsfacts(CRATE)
@@ -304,6 +381,7 @@ def run(ctx):
     rule_w1(ctx, F)
     rule_g1(ctx, F)
     rule_g2(ctx, F)
+    rule_b1(ctx, F)
     return ctx.finish(
         "Determinism scan and merge-licence gates over rustc MIR of tree-sitter-generate: no iteration over RandomState-hashed containers, no clock/thread/pid/env/random source, no pointer→integer casts; "
         "states_conflict vets every entry it consumes, token_conflicts/entries_conflict say `no conflict` only after all their tests, merging only under OptLevel::MergeStates. "
